@@ -6,6 +6,12 @@ ENGINES = [
 ]
 NOT_BUILT_REASON = {}
 META = {
+    "C14": {
+        "engine": "vkit (E2)",
+        "technique": "exhaustive enumeration of builder lists x key tuples x participating subsets for the honest exchange; exhaustive alteration of the second message relative to the first",
+        "text": "Honest: every list of 1..3 (thorough 4) disclosure/issuance builders plus lists with non-revocation, range and random-blind members, every key tuple over two 1024-bit and one 2048-bit key (both orders of mixed sizes), every non-empty participating subset, both session kinds: same challenge on both sides, merged list verifies with labels for secret = user + server share. Deviations: every leaf of every UserChallengeInput (+1, =0, nil, swapped), key id toggled / unknown / swapped, other commitments altered / dropped / extended, elements reordered / dropped / duplicated / added, every byte and length of the committed hash: error and no response, never a panic.",
+        "note": "Toy parameter sets are not usable here (NewKeyshareCommitments assumes 1024-bit or >=2048-bit parameter sets); 4096-bit keys not covered.",
+    },
     "C06": {
         "engine": "vkit (E2)",
         "technique": "exhaustive enumeration of issuance configurations (every blind subset) for honest runs; exhaustive single-leaf alteration / cross-run substitution of both protocol messages",
